@@ -2,3 +2,4 @@ import Iggy.Log.Model
 import Iggy.Log.Spec
 import Iggy.Sys.Model
 import Iggy.Sys.Spec
+import Iggy.Log.Abs
